@@ -369,7 +369,7 @@ def run_shape(E, spec, R, rng):
         k = rng.randrange(n)
         m = len(doc[k])
         mode = rng.choice(('tag-width', 'tag-rows', 'dep-shape', 'dep-square', 'doc-vs-scores', 'single-scores', 'dup-cats', 'cat-list-short',
-                           'both-for-other-length', 'both-for-other-length', 'empty-misshaped', 'more-scores'))
+                           'both-for-other-length', 'both-for-other-length', 'empty-misshaped', 'more-scores', 'extra-axis'))
         if mode == 'tag-width':
             scores[k] = ScoringResult(np.zeros((m, T + 1), dtype=np.float32), scores[k].dep_scores)
         elif mode == 'tag-rows':
@@ -387,6 +387,8 @@ def run_shape(E, spec, R, rng):
             scores[k] = ScoringResult(np.zeros((m + d, T), dtype=np.float32), np.zeros((m + d, m + d + 1), dtype=np.float32))
         elif mode == 'doc-vs-scores':
             scores = scores[:-1]
+        elif mode == 'extra-axis':
+            scores[k] = ScoringResult(scores[k].tag_scores[:, :, None].copy(), scores[k].dep_scores[:, :, None].copy())
         elif mode == 'more-scores':
             scores = scores + [scores[rng.randrange(n)] for _ in range(rng.choice((1, 1, 3)))]   # every leading pair fits
         elif mode == 'single-scores':
